@@ -11,6 +11,7 @@ import re
 import sys
 from pathlib import Path
 
+import common
 from common import Suite, Violation, err_enum, quiet, scratch_dir
 import jadeenv
 from jadeenv import jname, jid, gname
@@ -82,7 +83,7 @@ class BatchSuite(Suite):
             @staticmethod
             def sleep(s):
                 pass
-        rc.time = _T
+        rc.time = common.dual_time(_T)
         jadeenv.no_repo_info()
         os.environ.setdefault("USER", "verif")
         os.environ.pop("JADE_SKIP_SORT_BY_TIME", None)
